@@ -42,6 +42,7 @@ const (
 	vfC25Release
 	vfC25Fail
 	vfC25Epoch
+	vfC25ArmBcast
 )
 
 const vfC25Chan = "sp"
@@ -179,6 +180,8 @@ func (s vfC25Step) String() string {
 		return fmt.Sprintf("failNextPolls(%d)", 1+s.N)
 	case vfC25Epoch:
 		return "epochChange"
+	case vfC25ArmBcast:
+		return "armBroadcast"
 	}
 	return "?"
 }
@@ -268,7 +271,7 @@ func vfC25Gen(rt *rapid.T) vfC25Case {
 	kinds := []int{vfC25Sub, vfC25Sub, vfC25Track, vfC25Track, vfC25Track, vfC25Track, vfC25Track, vfC25Track, vfC25Untrack, vfC25Untrack,
 		vfC25Set, vfC25Set, vfC25Set, vfC25Set, vfC25Set, vfC25Set, vfC25Set, vfC25Remove, vfC25Notify, vfC25Revoke, vfC25Unsub,
 		vfC25Adv, vfC25Adv, vfC25Adv, vfC25Adv, vfC25Adv, vfC25Adv, vfC25ArmPoll, vfC25ArmPoll, vfC25ArmPoll, vfC25ArmPoll, vfC25ArmPoll, vfC25ArmPoll,
-		vfC25Release, vfC25Release, vfC25Release, vfC25Release, vfC25Release, vfC25Fail}
+		vfC25Release, vfC25Release, vfC25Release, vfC25Release, vfC25Release, vfC25Fail, vfC25ArmBcast, vfC25ArmBcast}
 	if c.Versioned {
 		kinds = append(kinds, vfC25Publish, vfC25Publish, vfC25Publish, vfC25Publish, vfC25Publish, vfC25Publish)
 	}
@@ -897,6 +900,15 @@ func vfC25Run(t *testing.T, cs vfC25Case, out *vfC25Out, isKnown func(string) bo
 			opts.NotificationBatchMaxDelay = 200 * time.Millisecond
 		}
 		cfg := Config{}
+		var gates *vfGates
+		// The per-channel batch config callback is invoked by keyedWritePublication / keyedWriteRemoval after encoding and
+		// before the per-connection critical section (no lock held): a gate here keeps one broadcast in flight.
+		cfg.GetChannelBatchConfig = func(ch string) ChannelBatchConfig {
+			if ch == vfC25Chan && gates != nil {
+				gates.Pass("bcast")
+			}
+			return ChannelBatchConfig{}
+		}
 		cfg.SharedPoll.GetSharedPollChannelOptions = func(ch string) (SharedPollChannelOptions, bool) {
 			if ch == vfC25Chan {
 				return opts, true
@@ -923,6 +935,7 @@ func vfC25Run(t *testing.T, cs vfC25Case, out *vfC25Out, isKnown func(string) bo
 			return "infra: " + err.Error()
 		}
 		defer w.Close()
+		gates = w.Gates
 		be.seqFn = func() int64 { return w.seq.Load() }
 		w.broker.Hook = func(op, phase, ch string) error {
 			if op == "subscribe" && phase == "before" {
@@ -1019,6 +1032,10 @@ func vfC25Run(t *testing.T, cs vfC25Case, out *vfC25Out, isKnown func(string) bo
 				races++
 				out.label(what + "_while_poll_in_flight")
 			}
+			if w.Gates.Waiting("bcast") > 0 {
+				races++
+				out.label(what + "_while_broadcast_in_flight")
+			}
 		}
 		anyTrackParked := func() bool {
 			for _, g := range w.Gates.AnyWaiting() {
@@ -1083,11 +1100,16 @@ func vfC25Run(t *testing.T, cs vfC25Case, out *vfC25Out, isKnown func(string) bo
 				}
 			}
 			w.broker.mu.Unlock()
-			w.broker.ReleaseHeld(i)
+			go w.broker.ReleaseHeld(i)
+			vfSettle()
 		}
 		brokerParked := func() bool { return w.Gates.Waiting("brokersub") > 0 }
+		bcastParked := func() bool { return w.Gates.Waiting("bcast") > 0 }
 
 		for si, s := range cs.Steps {
+			if bcastParked() && cs.PubEnabled && s.Kind == vfC25Publish {
+				continue // a broadcast parked below the memory broker holds its per-channel publish lock (a mutex)
+			}
 			if brokerParked() {
 				// the parked goroutine holds the node's per-channel subscribe lock (a mutex): nothing that needs the lock may run now
 				switch s.Kind {
@@ -1282,10 +1304,21 @@ func vfC25Run(t *testing.T, cs vfC25Case, out *vfC25Out, isKnown func(string) bo
 					out.label("publish_while_track_parked")
 				}
 				nextFault = []vfFault{vfDeliver, vfHold, vfDup, vfDrop}[s.Fault]
-				perr := w.node.SharedPollPublish(context.Background(), vfC25Chan, k, v, ep, data)
+				var perr error
+				pdone := make(chan struct{})
+				go func() {
+					defer close(pdone)
+					perr = w.node.SharedPollPublish(context.Background(), vfC25Chan, k, v, ep, data)
+				}()
+				vfSettle()
 				nextFault = vfDeliver
-				if perr != nil {
-					return fmt.Sprintf("step %d: SharedPollPublish error: %v", si, perr)
+				select {
+				case <-pdone:
+					if perr != nil {
+						return fmt.Sprintf("step %d: SharedPollPublish error: %v", si, perr)
+					}
+				default:
+					out.label("publish_broadcast_parked")
 				}
 				if s.Fault == 0 || s.Fault == 2 || !cs.PubEnabled {
 					be.mu.Lock()
@@ -1317,7 +1350,7 @@ func vfC25Run(t *testing.T, cs vfC25Case, out *vfC25Out, isKnown func(string) bo
 					excl = []string{conns[s.Conn].c.User}
 				}
 				raced("revoke")
-				w.node.sharedPollManager.SharedPollRevokeKeys(vfC25Chan, keys, users, excl)
+				go w.node.sharedPollManager.SharedPollRevokeKeys(vfC25Chan, keys, users, excl)
 			case vfC25Adv:
 				d := []time.Duration{100 * time.Millisecond, 600 * time.Millisecond, interval, 3 * interval}[s.Adv]
 				time.Sleep(d)
@@ -1354,7 +1387,7 @@ func vfC25Run(t *testing.T, cs vfC25Case, out *vfC25Out, isKnown func(string) bo
 					}
 					cands = keep
 				}
-				if w.broker.NumHeld() > 0 {
+				if w.broker.NumHeld() > 0 && !bcastParked() {
 					cands = append(cands, "held")
 				}
 				if len(cands) == 0 {
@@ -1389,6 +1422,12 @@ func vfC25Run(t *testing.T, cs vfC25Case, out *vfC25Out, isKnown func(string) bo
 					}
 					w.Gates.Release(g)
 				}
+			case vfC25ArmBcast:
+				if bcastParked() {
+					continue
+				}
+				w.Gates.Disarm("bcast")
+				w.Gates.Arm("bcast", 1)
 			case vfC25Fail:
 				be.mu.Lock()
 				be.fail = 1 + s.N
@@ -1400,9 +1439,16 @@ func vfC25Run(t *testing.T, cs vfC25Case, out *vfC25Out, isKnown func(string) bo
 			vfSettle()
 			markInline()
 			snap()
+			if bcastParked() {
+				out.label("broadcast_parked_mid_flight")
+			}
 		}
 
 		// ---- final phase: release everything (one kind at a time), heal the backend, let ≥3 refresh intervals pass -----
+		w.Gates.Disarm("bcast")
+		for w.Gates.Release("bcast") {
+		}
+		vfSettle()
 		for w.Gates.Release("poll") {
 		}
 		w.Gates.Disarm("poll")
